@@ -120,3 +120,49 @@ package sam
 //@   loop 0 decreases len(c) - rangeindex
 //@   ensures[C16] @sound result ==> (qLen(len(c)) == length && forall i in 0..len(c) :: okH(c, i) && okS(c, i) && okB(i))
 //@   ensures[C16] @complete (qLen(len(c)) == length && forall i in 0..len(c) :: okH(c, i) && okS(c, i) && okB(i)) ==> result
+
+// Text CIGAR parsing (C11): for any bytes ParseCigar returns a CIGAR or an
+// error. atoi is only handed runs of ASCII digits, of which it accepts at most
+// 13; the length it returns is never negative, so NewCigarOp's panic on an
+// illegal length is unreachable.
+//@ table powers
+//@ table cigarOps
+//@ trusted func ext:fmt.Errorf
+//@   ensures result != nil
+
+//@ func minInt
+//@   inline
+
+//@ func NewCigarOp
+//@   mode bv
+//@   anymode
+//@   props C11
+//@   decoder
+//@   panics when n < 0 || n > 268435455
+//@   ensures[C11] @len t <= 15 ==> (int(result >> 4) == n && CigarOpType(result & 0xf) == t)
+
+//@ func CigarOpType.String
+//@   mode int
+//@   props C11
+//@   decoder
+
+//@ func atoi
+//@   mode int
+//@   props C11
+//@   decoder
+//@   requires forall k in 0..len(b) :: 48 <= b[k] && b[k] <= 57
+//@   loop 0 invariant @acc 0 <= i && i <= len(b) && len(b) <= 13 && k == len(b) - 1 && 0 <= n && n <= i * 9000000000000
+//@   loop 0 decreases len(b) - i
+//@   ensures[C11] @nonneg result1 == nil ==> 0 <= result0
+
+//@ table cigarOpTypeLookup
+//@ func ParseCigar
+//@   mode int
+//@   props C11
+//@   decoder
+//@   loop 0 invariant @outer 0 <= i && i <= len(b) && (c == nil || fresh(c)) && op <= 10
+//@   loop 0 decreases len(b) - i
+//@   loop 1 invariant @inner i <= j && j <= len(b) && 0 <= i && i < len(b) && (c == nil || fresh(c)) && op <= 10 && (forall k in i..j :: 48 <= b[k] && b[k] <= 57)
+//@   loop 1 decreases len(b) - j
+//@   loop 2 invariant @split 0 <= n && 0 <= i && i < len(b) && (c == nil || fresh(c)) && op < 10
+//@   loop 2 decreases n
